@@ -5,6 +5,7 @@ handlers, and path / dominance / guard queries by plain reachability.
 Graphs here have at most a few hundred nodes, so every query is a BFS.
 """
 import ast
+from .inline import InlineBlock, InlineLeave
 from collections import deque
 
 from .model import walk_no_nested, norm
@@ -140,6 +141,16 @@ class CFG:
         return "maybe"
 
     def _stmt(self, st, follow, ctx, siblings, idx):
+        if isinstance(st, InlineBlock):
+            # statements of an inlined helper: `InlineLeave` (a return of the helper) continues after the block
+            ictx = dict(ctx)
+            ictx["leave:%s" % getattr(st, "label", "")] = follow
+            return self._block(st.body, follow, ictx)
+        if isinstance(st, InlineLeave):
+            n = self._new("stmt", astnode=st, info="inline-leave")
+            self._reg(st, n)
+            self._edge(n, ctx.get("leave:%s" % getattr(st, "label", ""), follow))
+            return n
         if isinstance(st, ast.If):
             body = self._block(st.body, follow, ctx)
             orelse = self._block(st.orelse, follow, ctx) if st.orelse else follow
